@@ -77,7 +77,11 @@ def gen_filter(rng, cls, names, quad=False, bases=()):
         sub = list(names)
         rng.shuffle(sub)
         sub = sub[: rng.randint(1, max(1, (len(sub) * 2) // 3))]
-        if x < 0.35:
+        if x < 0.04:
+            d["include"] = []  # selects nothing
+        elif x < 0.07:
+            d["exclude"] = []  # excludes nothing
+        elif x < 0.35:
             d["include"] = sub
         elif x < 0.6:
             d["exclude"] = sub
